@@ -171,7 +171,17 @@ extern "C" uint32_t c05_callee8w(uint32_t a0, uint32_t a1, uint32_t a2, uint32_t
   trash_volatile();
   return r;
 }
-static void* fn_ptr(int fn, bool w32) { return fn == 0 ? (void*)c05_callee0 : fn == 2 ? (w32 ? (void*)c05_callee2w : (void*)c05_callee2) : (w32 ? (void*)c05_callee8w : (void*)c05_callee8); }
+// marshalling probe: ten raw 64-bit slots; the declared parameter types (set by the harness before the run) decide which bits are defined
+static uint64_t g_call10_mask[10];
+extern "C" uint64_t c05_callee10(uint64_t a0, uint64_t a1, uint64_t a2, uint64_t a3, uint64_t a4, uint64_t a5, uint64_t a6, uint64_t a7, uint64_t a8, uint64_t a9) {
+  uint64_t a[10] = {a0, a1, a2, a3, a4, a5, a6, a7, a8, a9};
+  for (int i = 0; i < 10; i++) a[i] &= g_call10_mask[i];
+  if (g_calls.size() < 4096) g_calls.push_back(CallRec{10, std::vector<uint64_t>(a, a + 10)});
+  volatile uint64_t r = callee_value(10, a, 10);
+  trash_volatile();
+  return r;
+}
+static void* fn_ptr(int fn, bool w32) { return fn == 10 ? (void*)c05_callee10 : fn == 0 ? (void*)c05_callee0 : fn == 2 ? (w32 ? (void*)c05_callee2w : (void*)c05_callee2) : (w32 ? (void*)c05_callee8w : (void*)c05_callee8); }
 
 // =========================================================================================================
 // REFERENCE INTERPRETER (the oracle): evaluates the IR directly.
@@ -191,7 +201,9 @@ static void interp(const Prog& p, const Input& in, uint64_t mem_ptr, Outcome& ou
   for (int i = 0; i < p.nargs; i++) {
     int vi = p.arg_val[size_t(i)]; if (vi < 0) continue;
     v[size_t(vi)].q[0] = i == 0 ? mem_ptr : i == 1 ? in.sel : i == 2 ? in.cnt : in.a[i - 3];
-    if (size_t(i) < p.arg_tid.size() && p.arg_tid[size_t(i)] == 16) v[size_t(vi)].q[0] = uint64_t(sx(v[size_t(vi)].q[0], 16));   // an int16_t argument bound to a wider register is sign extended
+    // an int16_t argument bound to a wider register: asmjit's conversion rule (emit_arg_move) sign extends when source AND destination
+    // types are signed, and zero extends otherwise
+    if (size_t(i) < p.arg_tid.size() && p.arg_tid[size_t(i)] == 16) v[size_t(vi)].q[0] = gp_signed(p.kinds[size_t(vi)]) ? uint64_t(sx(v[size_t(vi)].q[0], 16)) : (v[size_t(vi)].q[0] & 0xFFFF);
     v[size_t(vi)].q[0] &= bits_mask(gp_bits(p.kinds[size_t(vi)]));
   }
   std::vector<int> lpos(size_t(p.nlabels), -1);
@@ -341,8 +353,10 @@ static void interp(const Prog& p, const Input& in, uint64_t mem_ptr, Outcome& ou
           int x = I.args[ai];
           uint64_t val = x <= -1000 ? uint64_t(-1000 - x) : v[size_t(x)].q[0];
           if (I.fn == 10 && x >= 0) {   // marshalling: the value is extended according to the signedness of the SOURCE register, the callee sees the parameter's width
-            Kind sk = p.kinds[size_t(x)]; if (gp_signed(sk)) val = uint64_t(sx(val, gp_bits(sk)));
-            int pt = p.call10_ptype[ai]; val &= bits_mask(pt < 0 ? -pt : pt);
+            // same conversion rule as for function arguments: sign extension when both the register type and the parameter type are signed
+            Kind sk = p.kinds[size_t(x)]; int pt = p.call10_ptype[ai];
+            if (gp_signed(sk) && pt < 0) val = uint64_t(sx(val, gp_bits(sk)));
+            val &= bits_mask(pt < 0 ? -pt : pt);
           }
           r.args.push_back(val);
         }
@@ -552,7 +566,7 @@ struct EmitX86 {
       case O_JT: {
         Table t; t.tbl = cc.new_label(); t.lbls = I.lbls;
         x86::Gp off = cc.new_gp64("jt_off"), tgt = cc.new_gp64("jt_tgt"), idx = G(a);
-        if (p.kinds[size_t(a)] == KW) { x86::Gp z = cc.new_gp32("jt_idx"); E(cc.mov(z, G(a))); idx = z.r64(); }   // zero-extend a 32-bit selector
+        if (gp_bits(p.kinds[size_t(a)]) == 32) { x86::Gp z = cc.new_gp32("jt_idx"); E(cc.mov(z, G(a))); idx = z.r64(); }   // zero-extend a 32-bit selector
         E(cc.lea(off, x86::ptr(t.tbl)));
         E(cc.movsxd(tgt, x86::dword_ptr(off, idx, 2)));
         E(cc.add(tgt, off));
@@ -566,7 +580,10 @@ struct EmitX86 {
       case O_CALL: {
         bool w = p.w32 || is32;
         FuncSignature sig; sig.set_ret(w ? TypeId::kUInt32 : TypeId::kUInt64); sig.set_call_conv_id(CallConvId::kCDecl);
-        for (size_t k = 0; k < I.args.size(); k++) sig.add_arg(w ? TypeId::kUInt32 : TypeId::kUInt64);
+        for (size_t k = 0; k < I.args.size(); k++) {
+          if (I.fn == 10) { int pt = p.call10_ptype[k]; sig.add_arg(pt == -32 ? TypeId::kInt32 : pt == 32 ? TypeId::kUInt32 : pt == -64 ? TypeId::kInt64 : TypeId::kUInt64); }
+          else sig.add_arg(w ? TypeId::kUInt32 : TypeId::kUInt64);
+        }
         InvokeNode* inv = nullptr;
         uint64_t target = native ? uint64_t(uintptr_t(fn_ptr(I.fn, p.w32))) : (0x00F00000ull + 0x100 * call_targets.size());
         call_targets.push_back(std::make_pair(target, I.fn));
@@ -601,6 +618,12 @@ c05_tramp:
   subq $8, %rsp
   movq %rdx, c05_saved_out(%rip)
   movq %rdi, %r10
+  pushq 120(%rsi)
+  pushq 112(%rsi)
+  pushq 104(%rsi)
+  pushq 96(%rsi)
+  pushq 88(%rsi)
+  pushq 80(%rsi)
   pushq 72(%rsi)
   pushq 64(%rsi)
   pushq 56(%rsi)
@@ -637,7 +660,7 @@ c05_tramp:
   movq %r15, 40(%r10)
   movq %rsp, 48(%r10)
   movq c05_saved_rsp(%rip), %rsp
-  addq $40, %rsp
+  addq $88, %rsp
   popq %r15
   popq %r14
   popq %r13
@@ -770,7 +793,9 @@ static bool run_case(const Prog& p, const CaseInfo& ci, const std::vector<Input>
     for (size_t i = 0; i < buf.size(); i++) buf[i] = 0xA5A5A5A5A5A5A5A5ull;
     memset(mem, 0, kBufBytes);
     for (int i = 0; i < 8; i++) mem[i] = in.m[i];
-    uint64_t args[10] = {uint64_t(uintptr_t(mem)), in.sel, in.cnt, in.a[0], in.a[1], in.a[2], in.a[3], in.a[4], in.a[5], in.a[6]};
+    uint64_t args[16] = {uint64_t(uintptr_t(mem)), in.sel, in.cnt};
+    for (int i = 0; i < 13; i++) args[3 + i] = in.a[i];
+    for (int i = 0; i < 10; i++) { int pt = i < int(p.call10_ptype.size()) ? p.call10_ptype[size_t(i)] : 64; g_call10_mask[i] = bits_mask(pt < 0 ? -pt : pt); }
     g_calls.clear();
     NativeRun nr;
     c.n("traces")++;
@@ -1022,12 +1047,12 @@ static void run_case_sim(const Prog& p, const CaseInfo& ci, const std::vector<In
 // GENERATOR: shape x K x n x argument mode x value mode x slot fillings
 // =========================================================================================================
 struct Fill { int slot; int alpha; int pat; };
-struct Desc { int arch = 0 /* 0 x64 native, 1 x86-32 simulated, 2 AArch64 simulated */; int shape = 0, K = 0, n = 1, am = 6, vm = 0; std::vector<Fill> fills; };
+struct Desc { int arch = 0 /* 0 x64 native, 1 x86-32 simulated, 2 AArch64 simulated */; int shape = 0, K = 0, n = 1, am = 6, vm = 0; std::vector<Fill> fills; int x = 0 /* shape specific extra parameter */; };
 static const char* const kArchName[] = {"x64", "x86", "a64"};
 
-enum { SH_STRAIGHT, SH_DIAMOND, SH_LOOP, SH_NESTED, SH_LOOPCOND, SH_IRREDUCIBLE, SH_JT3, SH_JT2, SH_CALLMID, SH_CALLLOOP, SH_TWOCALLS, SH_LOOPLOCAL_E, SH_LOOPLOCAL_L, SH__COUNT };
-static const char* const kShapeName[] = {"straight", "diamond", "loop", "nested-loop", "loop-cond", "irreducible", "jumptable3", "jumptable2", "call-mid", "call-loop", "two-calls", "loop-local-early", "loop-local-late"};
-static const int kShapeSlots[] = {2, 4, 4, 4, 4, 4, 4, 3, 2, 2, 3, 4, 4};
+enum { SH_STRAIGHT, SH_DIAMOND, SH_LOOP, SH_NESTED, SH_LOOPCOND, SH_IRREDUCIBLE, SH_JT3, SH_JT2, SH_CALLMID, SH_CALLLOOP, SH_TWOCALLS, SH_LOOPLOCAL_E, SH_LOOPLOCAL_L, SH_MARSHAL, SH_MANYARGS, SH__COUNT };
+static const char* const kShapeName[] = {"straight", "diamond", "loop", "nested-loop", "loop-cond", "irreducible", "jumptable3", "jumptable2", "call-mid", "call-loop", "two-calls", "loop-local-early", "loop-local-late", "call-args", "many-args"};
+static const int kShapeSlots[] = {2, 4, 4, 4, 4, 4, 4, 3, 2, 2, 3, 4, 4, 2, 2};
 
 enum { NEED_RDX = 1, NEED_AB_DISTINCT = 2, NEED_XMM_ONLY = 4, NEED_VEX = 8, NEED_NOT_Z = 16, NEED_BC_DISTINCT = 32, NEED_64 = 64, NEED_NATIVE = 128, NEED_3REGS = 256 };
 
@@ -1044,6 +1069,8 @@ struct PB {
   explicit PB(const Desc& dd) : d(dd) {}
   Ins& I(Op op, int a = -1, int b = -1, int c = -1, int64_t imm = 0, int sz = 0) { Ins i; i.op = op; i.a = a; i.b = b; i.c = c; i.imm = imm; i.sz = sz; p.code.push_back(i); return p.code.back(); }
   Kind dk = KG;   // kind of the data values (KW in the 32-bit value mode)
+  bool mixed = false;   // data values alternate between 64-bit and 32-bit virtual registers
+  std::vector<int> dv64;   // the 64-bit data values (call arguments in the mixed mode)
   int tmp(const char* base) { return p.newval(dk, std::string(base) + std::to_string(p.kinds.size())); }
   int label() { return p.nlabels++; }
   void bind(int l) { I(O_LABEL).lbl = l; }
@@ -1224,7 +1251,7 @@ static int alpha_by_name(const std::string& n) { for (int i = 0; i < kAlphaCount
 static const int kPat[5][3] = {{0, 1, 2}, {1, 2, 0}, {2, 0, 1}, {0, 0, 0}, {2, 2, 0}};
 static const int kPatCount = 5;
 
-static int alpha_class(int vm) { return (vm == 0 || vm == 5) ? 0 : vm == 2 ? 2 : 1; }
+static int alpha_class(int vm) { return (vm == 0 || vm == 5 || vm == 6) ? 0 : vm == 2 ? 2 : 1; }
 
 // is (alpha, pattern) part of the enumeration for this configuration? (static part; operand-dependent constraints are checked in slot())
 static bool alpha_applicable(const Alpha& al, int pat, const Desc& d) {
@@ -1235,6 +1262,12 @@ static bool alpha_applicable(const Alpha& al, int pat, const Desc& d) {
   if ((al.need & NEED_XMM_ONLY) && d.vm != 1) return false;
   if ((al.need & NEED_NATIVE) && d.arch != 0) return false;          // constant-pool operands are label-relative: outside the simulator
   if ((al.need & NEED_64) && d.vm == 5) return false;                // 64-bit-only forms in the 32-bit value mode
+  if (d.vm == 6) {                                                   // mixed 64/32-bit values: operations whose operands are taken at one width (or whose width is that of the destination alone)
+    static const char* const ok[] = {"mov", "add", "sub", "xor", "and", "or", "imul2", "imul3", "xchg", "lea-b", "lea-bis", "lea-bi", "mul", "imul1", "shl-cl", "shr-cl", "sar-cl", "movzx8", "movzx16", "mov8", "mov16",
+                                     "movi0", "addi", "add-0", "xor-m1", "and-ff", "shl-1", "shr-13", "rol-7", "inc", "dec", "neg", "not", "movi8"};
+    bool found = false; for (const char* n : ok) if (!strcmp(n, al.name)) found = true;
+    if (!found) return false;
+  }
   if ((al.need & NEED_NOT_Z) && d.vm == 4) return false;            // legacy/VEX-only forms have no zmm encoding
   return true;
 }
@@ -1263,9 +1296,10 @@ static void call(PB& b, int fn, int ret) {
   // AArch64 calls go through a register: 8 register arguments + the target need 9 allocatable registers
   if (b.d.arch == 2 && b.d.K && b.d.K < 9 && fn == 8) fn = 2;
   Ins& i = b.I(O_CALL, ret); i.fn = fn;
-  size_t n = b.dv.size();
-  if (fn == 2) { i.args = {b.F(), b.L()}; }
-  else if (fn == 8) { for (size_t k = 0; k < 8; k++) i.args.push_back(k == 5 ? -1000 - 77 : b.dv[k % n]); }
+  const std::vector<int>& av = b.mixed ? b.dv64 : b.dv;
+  size_t n = av.size();
+  if (fn == 2) { i.args = {av.front(), av.back()}; }
+  else if (fn == 8) { for (size_t k = 0; k < 8; k++) i.args.push_back(k == 5 ? -1000 - 77 : av[k % n]); }
 }
 
 static bool build_prog(const Desc& d, PB& b) {
@@ -1274,14 +1308,17 @@ static bool build_prog(const Desc& d, PB& b) {
   int nv = 0, nk = 0;
   if (d.vm == 1 || d.vm == 3 || d.vm == 4) { b.vkind = d.vm == 1 ? KX : d.vm == 3 ? KY : KZ; p.Kx = d.K ? 3 : 0; nv = d.K ? 4 : (d.vm == 4 ? 34 : 18); p.avx = d.vm != 1; p.avx512 = d.vm == 4; }
   if (d.vm == 2) { p.Kk = d.K ? 2 : 0; nk = d.K ? 3 : 9; p.avx512 = true; p.avx = true; }
-  if (d.vm == 5) { p.w32 = true; b.dk = KW; }
+  if (d.vm == 5) { p.w32 = true; b.dk = (d.shape == SH_MANYARGS && (d.x & 2)) ? K32S : KW; }
+  if (d.vm == 6) b.mixed = true;
   const int WB = p.w32 ? 4 : 8;
+  auto vbytes = [&](int v) { return gp_bits(p.kinds[size_t(v)]) / 8; };
   b.mem = p.newval(KG, "mem");
   p.arg_val.assign(size_t(d.am), -1);
   p.arg_val[0] = b.mem;
   if (shape_uses_sel(d.shape)) { b.sel = p.newval(b.dk, "sel"); p.arg_val[1] = b.sel; }
   if (shape_uses_cnt(d.shape)) { b.cnt = p.newval(b.dk, "cnt"); p.arg_val[2] = b.cnt; }
-  for (int i = 0; i < d.n; i++) b.dv.push_back(p.newval(b.dk, "d" + std::to_string(i)));
+  for (int i = 0; i < d.n; i++) { Kind k = b.mixed && (i & 1) ? KW : b.dk; b.dv.push_back(p.newval(k, "d" + std::to_string(i))); if (k == KG) b.dv64.push_back(b.dv.back()); }
+  if (d.shape == SH_MANYARGS && d.vm == 5 && (d.x & 1)) { p.arg_tid.assign(size_t(d.am), 0); for (int i = 3; i < d.am; i++) p.arg_tid[size_t(i)] = 16; }   // int16_t arguments bound to 32-bit registers
   for (int i = 0; i < nv; i++) b.vv.push_back(p.newval(b.vkind, "v" + std::to_string(i)));
   for (int i = 0; i < nk; i++) b.kv.push_back(p.newval(KK, "k" + std::to_string(i)));
   // loop-local shapes: a value that is live only around the back edge (defined before the loop, read inside, dead after it);
@@ -1291,7 +1328,7 @@ static bool build_prog(const Desc& d, PB& b) {
   // init: data values come from the arguments while there are some, then from the input area of the buffer
   for (int i = 0; i < d.n; i++) {
     if (3 + i < d.am) { p.arg_val[size_t(3 + i)] = b.dv[size_t(i)]; continue; }
-    b.I(O_LOAD, b.dv[size_t(i)], -1, -1, 8 * (i % 8), WB);
+    b.I(O_LOAD, b.dv[size_t(i)], -1, -1, 8 * (i % 8), vbytes(b.dv[size_t(i)]));
     b.I(O_ADDI, b.dv[size_t(i)], -1, -1, 29 * i + 1);
   }
   for (int j = 0; j < nv; j++) {
@@ -1384,6 +1421,36 @@ static bool build_prog(const Desc& d, PB& b) {
       b.extra.push_back(lacc);
       break;
     }
+    case SH_MARSHAL: {
+      // argument marshalling: x = source type * 100 + parameter type * 10 + position; one typed register is passed at a register / stack position
+      static const Kind kT[] = {K8S, K8U, K16S, K16U, K32S, KW, K64S};
+      static const int kP[] = {-32, 32, -64, 64};
+      static const int64_t kOff[] = {48, 48, 40, 40, 56, 56, 24};          // input qwords whose low bytes are negative / positive over the data tuples
+      int ti = d.x / 100, pi = (d.x / 10) % 10, pos = d.x % 10;
+      if (ti < 0 || ti > 6 || pi < 0 || pi > 3 || (pos != 1 && pos != 4 && pos != 7 && pos != 9)) return false;
+      Kind tk = kT[ti]; if (gp_bits(tk) > (kP[pi] < 0 ? -kP[pi] : kP[pi])) return false;
+      int tv = p.newval(tk, "m" + std::to_string(p.kinds.size())), r = b.tmp("r");
+      b.I(O_LOAD, tv, -1, -1, kOff[ti], gp_bits(tk) / 8);
+      b.slot(0);
+      Ins& ci = b.I(O_CALL, r); ci.fn = 10;
+      p.call10_ptype.assign(10, 64);
+      for (int k = 0; k < 10; k++) { if (k == pos) { ci.args.push_back(tv); p.call10_ptype[size_t(k)] = kP[pi]; } else if (k == 5) ci.args.push_back(-1000 - 77); else ci.args.push_back(b.dv[size_t(k) % b.dv.size()]); }
+      b.slot(1);
+      b.extra.push_back(r);
+      break;
+    }
+    case SH_MANYARGS: {
+      // 16 arguments (13 data values arrive as arguments 3..15, seven of them on the stack), a 32-byte aligned stack variable that
+      // is written and read, a call with stack-passed arguments in the middle: argument home slots, local area and call area coexist
+      int r = b.tmp("r");
+      p.nstk = 1; p.stk_align = 32;
+      b.slot(0);
+      call(b, 8, r);
+      b.I(O_STKST, r, -1, -1, 0); b.I(O_MOVI, r, -1, -1, 0); b.I(O_STKLD, r, -1, -1, 0);
+      b.slot(1);
+      b.extra.push_back(r);
+      break;
+    }
     case SH_CALLMID: {
       b.slot(0);
       call(b, 2, S);
@@ -1415,7 +1482,12 @@ static bool build_prog(const Desc& d, PB& b) {
   // the final expression consumes every live value: position-sensitive fold into the return value + stores
   int acc = b.tmp("acc"), t = -1;
   b.I(O_MOVI, acc, -1, -1, 1);
-  auto fold = [&](int v) { b.I(O_LEA, acc, acc, acc, 0, 1); b.I(O_ADD, acc, v); };
+  int zt = -1;
+  auto fold = [&](int v) {
+    b.I(O_LEA, acc, acc, acc, 0, 1);
+    if (b.mixed && gp_bits(p.kinds[size_t(v)]) == 32) { if (zt < 0) zt = p.newval(KG, "z" + std::to_string(p.kinds.size())); b.I(O_MOV, zt, v); b.I(O_ADD, acc, zt); }   // zero extending move from the 32-bit register
+    else b.I(O_ADD, acc, v);
+  };
   for (int v : b.dv) fold(v);
   for (int v : b.extra) fold(v);
   for (size_t j = 0; j < b.vv.size(); j++) {
@@ -1423,7 +1495,7 @@ static bool build_prog(const Desc& d, PB& b) {
     if (b.vkind == KX) { if (t < 0) t = b.tmp("t"); b.I(O_VMOV_GV, t, b.vv[j]); fold(t); }
   }
   for (size_t j = 0; j < b.kv.size(); j++) { if (t < 0) t = b.tmp("t"); b.I(O_KMOV_GK, t, b.kv[j]); fold(t); }
-  for (size_t i = 0; i < b.dv.size() && i < 3; i++) b.I(O_STORE, b.dv[i], -1, -1, 72 + 8 * int64_t(i), WB);
+  for (size_t i = 0; i < b.dv.size() && i < 3; i++) b.I(O_STORE, b.dv[i], -1, -1, 72 + 8 * int64_t(i), vbytes(b.dv[i]));
   b.I(O_STORE, acc, -1, -1, 64, WB);
   b.I(O_RET, acc);
   return true;
@@ -1456,6 +1528,7 @@ static std::string desc_str(const Desc& d) {
   std::string s = std::string("arch=") + kArchName[d.arch] + " shape=" + kShapeName[d.shape] + " K=" + std::to_string(d.K) + " n=" + std::to_string(d.n) + " args=" + std::to_string(d.am) + " vm=" + std::to_string(d.vm) + " fills=";
   for (size_t i = 0; i < d.fills.size(); i++) s += (i ? "," : "") + std::string("S") + std::to_string(d.fills[i].slot) + ":" + kAlpha[d.fills[i].alpha].name + ":p" + std::to_string(d.fills[i].pat);
   if (d.fills.empty()) s += "-";
+  if (d.x) s += " x=" + std::to_string(d.x);
   return s;
 }
 static bool parse_desc(const std::string& text, Desc& d) {
@@ -1463,6 +1536,7 @@ static bool parse_desc(const std::string& text, Desc& d) {
     if (line.rfind("arch=", 0) != 0) continue;
     char ar[16], sh[64], fl[1024]; fl[0] = 0;
     if (sscanf(line.c_str(), "arch=%15s shape=%63s K=%d n=%d args=%d vm=%d fills=%1023s", ar, sh, &d.K, &d.n, &d.am, &d.vm, fl) < 6) return false;
+    { size_t xp = line.find(" x="); d.x = xp == std::string::npos ? 0 : atoi(line.c_str() + xp + 3); }
     d.arch = -1; for (int i = 0; i < 3; i++) if (!strcmp(ar, kArchName[i])) d.arch = i;
     if (d.arch < 0) return false;
     d.shape = -1; for (int i = 0; i < SH__COUNT; i++) if (!strcmp(sh, kShapeName[i])) d.shape = i;
@@ -1576,7 +1650,7 @@ static void run_desc(const Desc& d) {
   c.violation(rep.key, rep.desc, rep.replay);
 }
 
-struct Config { int K, n, am, vm; int arch = 0; };
+struct Config { int K, n, am, vm; int arch = 0; int x = 0; bool no_fills = false; };
 
 // operand index tuple of (alpha, pat) for dedup of patterns that select the same operands
 static std::array<int, 3> op_tuple(const Alpha& al, int pat, const Desc& d) {
@@ -1610,9 +1684,9 @@ static std::vector<Fill> fills_for(const Desc& d, unsigned pat_mask = 0x1F) {
 static void enumerate(const std::vector<Config>& cfgs, int k, const std::vector<int>& shapes, unsigned pat_mask = 0x1F) {
   vh::Ctx& c = vh::ctx();
   for (const Config& cf : cfgs) for (int sh : shapes) {
-    Desc d; d.arch = cf.arch; d.shape = sh; d.K = cf.K; d.n = cf.n; d.am = cf.am; d.vm = cf.vm;
+    Desc d; d.arch = cf.arch; d.shape = sh; d.K = cf.K; d.n = cf.n; d.am = cf.am; d.vm = cf.vm; d.x = cf.x;
     if (cf.arch != 0 && (sh == SH_JT3 || sh == SH_JT2)) continue;   // indirect jumps are outside the simulator
-    std::vector<Fill> fl = fills_for(d, pat_mask);
+    std::vector<Fill> fl; if (!cf.no_fills) fl = fills_for(d, pat_mask);
     auto one = [&](const Desc& dd) {
       if (g_stop) return;
       if (g_dry) { g_idx++; return; }
@@ -1653,7 +1727,7 @@ int main(int argc, char** argv) {
   }
 
   g_dry = c.opt("dry") == "1";
-  std::vector<int> all_shapes; for (int i = 0; i < SH__COUNT; i++) all_shapes.push_back(i);
+  std::vector<int> all_shapes; for (int i = 0; i < SH__COUNT; i++) if (i != SH_MARSHAL && i != SH_MANYARGS) all_shapes.push_back(i);
   std::vector<Config> cfg1, cfg2;
   std::string bound;
   auto add_k = [&](std::vector<Config>& v, int K, std::initializer_list<int> ams) {
@@ -1670,6 +1744,7 @@ int main(int argc, char** argv) {
     cfg1.push_back(Config{0, 20, 6, 0}); cfg1.push_back(Config{0, 70, 10, 0}); cfg1.push_back(Config{0, 130, 6, 0});
     add_vec(cfg1, 3, 3); add_vec(cfg1, 0, 20);
     cfg1.push_back(Config{3, 2, 6, 5}); cfg1.push_back(Config{3, 4, 10, 5}); cfg1.push_back(Config{0, 20, 6, 5});
+    cfg1.push_back(Config{3, 2, 6, 6}); cfg1.push_back(Config{3, 3, 6, 6}); cfg1.push_back(Config{3, 5, 10, 6}); cfg1.push_back(Config{0, 20, 6, 6});   // mixed 64/32-bit values
     cfg1.push_back(Config{3, 2, 6, 5, 1}); cfg1.push_back(Config{3, 4, 10, 5, 1}); cfg1.push_back(Config{0, 10, 6, 5, 1});
     cfg1.push_back(Config{3, 2, 6, 0, 2}); cfg1.push_back(Config{3, 4, 10, 0, 2}); cfg1.push_back(Config{0, 20, 6, 0, 2}); cfg1.push_back(Config{0, 36, 10, 0, 2});
     bound = "k<=1 slot; x64 native: K=3 with total GP pressure {2,3,4,6} (= data values + buffer pointer; loop counters/selectors/call targets on top) x args {6, 10 (4 on the stack)}; full file with 20 (6 args), 70 (10 args) and 130 (6 args) data values; "
@@ -1681,6 +1756,8 @@ int main(int argc, char** argv) {
     add_vec(cfg1, 3, 1); add_vec(cfg1, 3, 3); add_vec(cfg1, 2, 2); add_vec(cfg1, 4, 5); add_vec(cfg1, 0, 20);
     for (int K : {2, 3, 4}) { size_t from = cfg1.size(); add_k(cfg1, K, {6}); for (size_t i = from; i < cfg1.size(); i++) cfg1[i].vm = 5; }
     cfg1.push_back(Config{0, 20, 6, 5}); cfg1.push_back(Config{0, 70, 10, 5});
+    for (int K : {2, 3, 4}) { size_t from = cfg1.size(); add_k(cfg1, K, {6, 10}); for (size_t i = from; i < cfg1.size(); i++) cfg1[i].vm = 6; }
+    cfg1.push_back(Config{0, 20, 6, 6}); cfg1.push_back(Config{0, 70, 10, 6});
     for (int K : {2, 3, 4}) { size_t from = cfg1.size(); add_k(cfg1, K, {6, 10}); for (size_t i = from; i < cfg1.size(); i++) { cfg1[i].vm = 5; cfg1[i].arch = 1; } }
     cfg1.push_back(Config{0, 8, 6, 5, 1}); cfg1.push_back(Config{0, 12, 10, 5, 1});
     for (int K : {3, 4}) { size_t from = cfg1.size(); add_k(cfg1, K, {6, 10}); for (size_t i = from; i < cfg1.size(); i++) cfg1[i].arch = 2; }
@@ -1691,6 +1768,21 @@ int main(int argc, char** argv) {
             "k=2 slots (two different slots, or one slot filled twice in both orders): x64, K=3, total pressure 4, 6 args, GP alphabet, operand patterns {first-second-last, second-last-first, same-twice}";
   }
   enumerate(cfg1, 1, all_shapes);
+  {
+    // argument marshalling at call sites: every (source register type) x (parameter type at least as wide) x (register / stack position)
+    std::vector<Config> mc;
+    for (int ti = 0; ti < 7; ti++) for (int pi = 0; pi < 4; pi++) for (int pos : {1, 7, 4, 9}) {
+      if (!c.thorough() && (pos == 4 || pos == 9)) continue;
+      static const int tb[] = {8, 8, 16, 16, 32, 32, 64}; static const int pb[] = {32, 32, 64, 64};
+      if (tb[ti] > pb[pi]) continue;
+      for (auto kn : {std::make_pair(3, 3), std::make_pair(0, 20)}) { Config cf{kn.first, kn.second, 6, 0}; cf.x = ti * 100 + pi * 10 + pos; cf.no_fills = !c.thorough(); mc.push_back(cf); }
+    }
+    if (!g_stop) enumerate(mc, 1, {SH_MARSHAL});
+    // many arguments + aligned stack variable + call with stack arguments
+    std::vector<Config> ma;
+    for (int K : {0, 3}) for (int n : {15, 20}) { if (K == 3 && n == 20) continue; ma.push_back(Config{K, n, 16, 0}); ma.push_back(Config{K, n, 16, 5}); Config nw{K, n, 16, 5}; nw.x = 1; ma.push_back(nw); nw.x = 3; ma.push_back(nw); }
+    if (!g_stop) enumerate(ma, 1, {SH_MANYARGS});
+  }
   long long n1 = c.n("evaluations");
   if (!cfg2.empty() && !g_stop) enumerate(cfg2, 2, all_shapes, 0x0B);
   if (g_dry) { printf("programs in this tier: %lld\n", g_idx); return 0; }
